@@ -133,6 +133,10 @@ func cmdDump(eng *Engine, o options) int {
 	for _, u := range c.unsup {
 		fmt.Println("UNSUPPORTED:", u)
 	}
+	if len(c.unsup) > 0 && !c.sweep {
+		fmt.Println("function is outside the supported subset: obligations not attempted")
+		return 0
+	}
 	for n := range c.notes {
 		fmt.Println("NOTE:", n)
 	}
@@ -426,6 +430,12 @@ func cmdCheck(eng *Engine, o options, start time.Time) int {
 		}
 		c := eng.verifyFunction(fn, spec, false)
 		ctxs = append(ctxs, c)
+		if len(c.unsup) > 0 {
+			// outside the subset: reported as such; its obligations are not attempted
+			for _, ob := range c.obls {
+				ob.Skipped = "filtered"
+			}
+		}
 		all = append(all, c.obls...)
 	}
 	if o.prop == "C16" {
